@@ -257,7 +257,8 @@ prop("C05", "exploration",
      "(configuration class, API call kind) pairs exercised under the race detector",
      [
          {"harness": "eng", "flavour": "shim", "race": True, "args": {"quick": ["--mode", "c05"], "thorough": ["--mode", "c05"]}, "timeout": {"quick": 900, "thorough": 3400}},
-         {"harness": "eng", "flavour": "shim", "race": True, "tags": ["poll_opt", "gc_opt"], "tiers": ["thorough"], "args": {"thorough": ["--mode", "c05", "--n", "12"]}, "timeout": {"thorough": 3400}},
+         {"harness": "eng", "flavour": "shim", "race": True, "tags": ["gc_opt"], "tiers": ["thorough"], "args": {"thorough": ["--mode", "c05", "--n", "12"]}, "timeout": {"thorough": 3400}},
+         {"harness": "eng", "flavour": "shim", "tags": ["poll_opt"], "args": {"quick": ["--mode", "c05", "--n", "4"], "thorough": ["--mode", "c05", "--n", "12"]}, "timeout": {"quick": 900, "thorough": 3400}},
          {"harness": "eng", "flavour": "shim", "args": {"quick": ["--mode", "c04", "--n", "6"], "thorough": ["--mode", "c04", "--n", "30"]}, "timeout": {"quick": 900, "thorough": 3400}},
      ],
      "Go race detector over a hostile workload aimed at the documented concurrency-safe API, plus a goroutine-identity/overlap monitor inside every callback.",
@@ -381,6 +382,9 @@ RULE_ADDENDA = {
            "writes), segment vectors of 1025-1300 and 2049-3000 entries, OnOpen replies of 1-3 MiB.",
     "C04": "Added: EventLoop.Close inside OnOpen, close requests inside OnClose, an empty datagram sent to a connected client UDP socket "
            "(a peer-induced close must carry an error), accepted sockets must be registered or closed at the quiescent point before shutdown.",
+    "C05": "Added: the poll_opt build runs the same workload without -race (confinement and overlap monitors only): with -race Go's checkptr "
+           "instrumentation stops that build at its first event (misaligned pointer conversion in netpoll.restorePollAttachment, the packed epoll "
+           "event), so its data-race half cannot be observed with the race detector (DESIGN 8.2).",
     "C06": "Added: shutdown requested through the low-priority queue (> 1024 asynchronous writes pending), every OnClose returning Shutdown once "
            "armed, the connection whose OnClose asks for shutdown closed five ways (peer FIN, failed write inside OnTraffic, Close action, "
            "EventLoop.Close, Conn.Close), a non-retryable accept4 error in reactor and in SO_REUSEPORT mode with connections open, several "
